@@ -1318,7 +1318,7 @@ func runC02Less(c *Ctx) {
 // ---- rules written after the seeds of round 6 (letters I, J) were missed ----
 
 func init() {
-	register(&Rule{ID: "C03.MUSTSCAN", Min: 3, Doc: "every function that hands a scalar to the placeholder scan does so on every path on which the scalar exists", Run: runC03MustScan})
+	register(&Rule{ID: "C03.MUSTSCAN", Min: 20, Doc: "every function that hands a scalar to the placeholder scan does so on every path on which the scalar exists; further up, no hand-over towards the scan is conditional on a test of the scalar's own text", Run: runC03MustScan})
 	register(&Rule{ID: "C06.JSONMERGE", Min: 1, Doc: "the element types of a JSON array literal are merged unconditionally", Run: runC06JSONMerge})
 	register(&Rule{ID: "C09.CYCLESTART", Min: 1, Doc: "the job at which a cycle is reported is chosen among the jobs of the cycle by position, not by where the search entered it", Run: runC09CycleStart})
 	register(&Rule{ID: "C14.REQDECODE", Min: 2, Doc: "`required` of a metadata input is decoded as a YAML boolean, not compared as text", Run: runC14ReqDecode})
@@ -1331,7 +1331,7 @@ func init() {
 
 func runC03MustScan(c *Ctx) {
 	p := c.P
-	scan := p.Method("RuleExpression", "checkExprsIn")
+	scan := c03ScanFunc(p)
 	if scan == nil {
 		c.anchorMissing("(*RuleExpression).checkExprsIn")
 		return
@@ -1346,7 +1346,12 @@ func runC03MustScan(c *Ctx) {
 		seen[fn] = true
 		n++
 		construct := FuncName(fn) + "|scan on every path"
-		calls := findCalls(fn, "(*RuleExpression).checkExprsIn")
+		var calls []ssa.CallInstruction
+		eachInstr(fn, func(_ *ssa.BasicBlock, _ int, in ssa.Instruction) {
+			if call, ok := in.(ssa.CallInstruction); ok && staticCallee(call.Common()) == scan {
+				calls = append(calls, call)
+			}
+		})
 		// blocks from which a return is reached without passing a call; conditions allowed on such paths: nil tests of a
 		// parameter (no scalar)
 		stop := map[*ssa.BasicBlock]bool{}
@@ -1388,6 +1393,8 @@ func runC03MustScan(c *Ctx) {
 	if n == 0 {
 		c.anchorMissing("callers of checkExprsIn")
 	}
+	// the callers of those callers, up to the visitor methods: no hand-over is filtered by the text of what is handed over
+	c03TextGuards(c)
 }
 
 func runC06JSONMerge(c *Ctx) {
